@@ -142,6 +142,34 @@ mod private {
             // restore the matrix state the following observations expect
             let _ = with_dl!(|d: &DamerauLevenshtein| d.distance(&t1.view(0), &t2.view(0)));
         }
+        // the first word's buffer overwritten in place with other letters (same address, same length) and asked again on the
+        // same instance: what the instance remembers about "the word at this address" must not pass for the new content
+        if reclass_err.is_none() && !deep && !c1.is_empty() && cx.rng.chance(1, 3) {
+            let mut r1 = word_text(c1, &k1);
+            let _ = with_dl!(|d: &DamerauLevenshtein| d.distance(&r1.view(0), &t2.view(0)));
+            let mut alt: Vec<char> = c1.to_vec();
+            alt.reverse();
+            if alt == c1 {
+                let last = alt.len() - 1;
+                alt[last] = if alt[last] == 'q' { 'z' } else { 'q' };
+            }
+            let ka = classes_for(&alt, 1);
+            for i in 0..alt.len() {
+                r1.chars[i] = alt[i];
+                r1.source[i] = alt[i];
+                r1.classes[i] = ka[i].clone();
+            }
+            let got = with_dl!(|d: &DamerauLevenshtein| d.distance(&r1.view(0), &t2.view(0)));
+            let mut ta = word_text(&alt, &ka);
+            ta.words[0].fin = r1.words[0].fin;
+            let want = DamerauLevenshtein::new().distance(&ta.view(0), &t2.view(0));
+            cx.eval();
+            cx.count("calls on a word buffer overwritten in place since the call before");
+            if got != want {
+                reclass_err = Some(format!("the first word's buffer overwritten in place with {:?}: {} on the used instance, {} on a fresh one", s(&alt), got, want));
+            }
+            let _ = with_dl!(|d: &DamerauLevenshtein| d.distance(&t1.view(0), &t2.view(0)));
+        }
         // the two words as words of ONE text (views into the same buffers, as the words of a title are)
         let mut shared_err: Option<String> = None;
         if !deep || c1.len() + c2.len() <= 8 {
@@ -317,6 +345,21 @@ mod private {
             cx.count("calls whose second argument differs from the previous one only beyond its 20th element");
             if got != exp {
                 cx.fail_sig("jaccard", "jaccard:depends-on-history".into(), json!({"seq1": s(s1), "seq2": s(&s2b), "previous_seq2": s(s2), "similarity": got, "expected": exp}));
+                return;
+            }
+        }
+        // the second argument's buffer overwritten in place (same address, same length, one element changed) and asked again
+        if !s2.is_empty() {
+            let mut buf = s2.to_vec();
+            let _ = JC.with(|j| j.similarity(s1, &buf));
+            let at = buf.len() / 2;
+            buf[at] = if buf[at] == 'q' { 'z' } else { 'q' };
+            let got = JC.with(|j| j.similarity(s1, &buf));
+            let exp = oracle::set_jaccard(s1, &buf);
+            cx.eval();
+            cx.count("calls on a buffer overwritten in place since the call before");
+            if got != exp {
+                cx.fail_sig("jaccard", "jaccard:depends-on-history".into(), json!({"seq1": s(s1), "seq2": s(&buf), "previous_seq2_at_the_same_address": s(s2), "similarity": got, "expected": exp}));
                 return;
             }
         }
@@ -773,7 +816,7 @@ impl Prims {
         }
         let qg = oracle::grams_of(&tq);
         cx.ctx(format!("C18 lang={} store={} q={:?} size={}", lang, store_desc, q, size));
-        let got = st.store.index.borrow_mut().prepare(&tq.to_ref(), size);
+        let got = st.with_query(tq.to_ref().to_own(), |r| st.store.index.borrow_mut().prepare(r, size));
         cx.eval();
         cx.count("prepare calls");
         let shared: Vec<usize> = rgrams.iter().map(|g| g.intersection(&qg).count()).collect();
@@ -1031,8 +1074,8 @@ impl Prop for Prims {
     }
     fn floors(&self) -> Vec<(&'static str, u64, u64)> {
         match self.0 {
-            Which::Distance => vec![("exhaustive pairs", 100000, 2000000), ("prefix cells compared", 1000000, 20000000), ("pairs where a discount lowered the distance", 10000, 100000), ("random pairs beyond capacity 20", 500, 5000), ("long pairs with sampled prefix cells", 200, 2000), ("random cases with per-position character classes", 2000, 20000), ("re-classed repeat calls", 10000, 100000), ("random cases over an alphabet of 41-110 symbols", 3000, 30000), ("random cases over letters related by case or compatibility mappings", 3000, 30000), ("random cases over letters that agree in their low 8, 16 or 20 bits", 3000, 30000), ("calls with one word held fixed while the other grows", 20000, 200000), ("session calls on one instance", 1000000, 6000000), ("most calls on one instance max ", 131072, 131072), ("hook matrix growths", 3, 3), ("hook matrix max size", 50, 50)],
-            Which::Jaccard => vec![("exhaustive pairs", 100000, 1500000), ("pairs with partial overlap", 20000, 200000), ("pairs beyond the initial capacity of 20", 500, 5000), ("calls whose arguments are ranges of one buffer that overlap only partly", 20000, 200000), ("random cases over elements that agree in their low 8, 16 or 20 bits", 1000, 10000), ("random cases over a wide alphabet", 1000, 10000), ("hook jaccard accesses", 100000, 1000000)],
+            Which::Distance => vec![("exhaustive pairs", 100000, 2000000), ("prefix cells compared", 1000000, 20000000), ("pairs where a discount lowered the distance", 10000, 100000), ("random pairs beyond capacity 20", 500, 5000), ("long pairs with sampled prefix cells", 200, 2000), ("random cases with per-position character classes", 2000, 20000), ("re-classed repeat calls", 10000, 100000), ("random cases over an alphabet of 41-110 symbols", 3000, 30000), ("random cases over letters related by case or compatibility mappings", 3000, 30000), ("random cases over letters that agree in their low 8, 16 or 20 bits", 3000, 30000), ("calls on a word buffer overwritten in place since the call before", 20000, 200000), ("calls with one word held fixed while the other grows", 20000, 200000), ("session calls on one instance", 1000000, 6000000), ("most calls on one instance max ", 131072, 131072), ("hook matrix growths", 3, 3), ("hook matrix max size", 50, 50)],
+            Which::Jaccard => vec![("exhaustive pairs", 100000, 1500000), ("pairs with partial overlap", 20000, 200000), ("pairs beyond the initial capacity of 20", 500, 5000), ("calls whose arguments are ranges of one buffer that overlap only partly", 20000, 200000), ("random cases over elements that agree in their low 8, 16 or 20 bits", 1000, 10000), ("calls on a buffer overwritten in place since the call before", 100000, 1000000), ("random cases over a wide alphabet", 1000, 10000), ("hook jaccard accesses", 100000, 1000000)],
             Which::Index => vec![("prepare calls", 5000, 50000), ("capped calls", 500, 5000), ("calls with ties at the cut", 100, 1000), ("size 0", 300, 3000), ("corpus prepare calls", 200, 2000), ("stores of 1023-5000 records", 50, 500), ("queries with more than 255 distinct grams", 300, 15000), ("calls at the boundary between 'all listed' and 'capped'", 300, 15000), ("session calls on one index", 1000000, 10000000), ("most calls on one index max ", 131000, 131000), ("sessions past 2^17 calls", 2, 20), ("calls with a query without words", 300, 3000), ("sparse indexes of 65 000 - 330 000 records", 16, 160), ("queries with more than 65 536 distinct grams", 2, 50), ("stores of words with letters above U+FFFF and their 16-bit look-alikes", 300, 3000), ("stores of random words and their look-alikes under 8-, 16- or 20-bit packing", 300, 3000)],
             Which::Unchecked => vec![("direct distance/similarity calls", 20000, 200000), ("direct calls beyond capacity 20", 5000, 50000), ("store-level searches", 5000, 50000), ("store-level rounds with 127-1500 records", 200, 2000), ("store-level rounds with clear and re-add", 500, 5000), ("type-ahead sequences with adds in between", 1000, 10000), ("direct call sequences with words of 76-420 letters", 200, 2000), ("direct call sequences with arithmetic length relations", 300, 3000), ("store-level queries of 65-200 words", 300, 3000), ("searches on a surviving store after a neighbour store was dropped", 3000, 30000), ("stores filled on one thread and searched on another", 500, 5000), ("direct calls whose arguments share their buffers", 5000, 50000), ("jaccard calls on sets of 256-70000 distinct elements", 20, 200), ("hook matrix accesses", 1000000, 10000000), ("hook matrix growths", 3, 3), ("hook matrix max size", 50, 50), ("hook counter accesses", 10000, 100000), ("hook cost accesses", 100000, 1000000), ("hook jaccard accesses", 10000, 100000)],
         }
